@@ -232,7 +232,7 @@ impl SubCheckT for Hash {
     const NAME: &'static str = "hash";
     const RULE: &'static str = "a function (random truth table or CNF) represented as BDDs under 3 orders, SDDs under 2 vtrees (compressed / uncompressed), an SDD built by the hash-identified builder and, for CNFs, both top-down stores; for the exported 32-bit primes and the 64-bit prime: every semantic_hash equals the defining sum over models of the product of the map's weights (harness mulmod), negations hash to 1 - h, cached_semantic_hash (BDD: order+map, SDD: vtree manager+map; one prime per builder) equals the recomputed hash twice in a row and after further operations, for the root and every internal BDD node. Non-trivial: non-constant, >=3 support variables (>=9 representations each)";
     fn cases(tier: Tier) -> u32 {
-        tier.pick(1500, 50_000)
+        tier.pick(4000, 50_000)
     }
     fn strategy(_tier: Tier) -> BoxedStrategy<HashCase> {
         (
@@ -264,14 +264,22 @@ pub struct SemCase {
     pub ops: Vec<SOp>,
     pub cnf: CnfCase,
     pub table_cap: Option<u16>,
+    /// value passed to set_compression on the hash-identified builder (every configuration must stay correct)
+    #[serde(default)]
+    pub compression_flag: Option<bool>,
 }
 
 pub struct SemBuilder;
 
 fn sem_history<const P: u128>(case: &SemCase, exact: bool, st: &mut Stats) -> CaseResult {
     rsdd::verif_hooks::set_unique_table_capacity(case.table_cap.map(|c| c as usize));
-    let b = SemanticSddBuilder::<P>::new(case.vt.to_vtree());
+    let mut b = SemanticSddBuilder::<P>::new(case.vt.to_vtree());
     rsdd::verif_hooks::set_unique_table_capacity(None);
+    if let Some(flag) = case.compression_flag {
+        b.set_compression(flag);
+        st.bump(if flag { "set_compression.true" } else { "set_compression.false" });
+    }
+    let b = b;
     let shape = case.vt.shape();
     let k = shape.leaves().len();
     let mut run = SddRun::new(&b, shape.leaves());
@@ -370,9 +378,9 @@ pub fn run_sem(case: &SemCase, st: &mut Stats) -> CaseResult {
 impl SubCheckT for SemBuilder {
     type Case = SemCase;
     const NAME: &'static str = "semantic_sdd_builder";
-    const RULE: &'static str = "SemanticSddBuilder over a random vtree (1..5 variables) under <=30 operations from {literal, constant, not, and, or, condition, exists} plus compile_cnf (ite/iff/xor/compose are todo!() in that builder and outside the property): over GF(2^64-25) every returned SDD denotes the oracle function and eq(a,b) holds exactly when the truth tables are equal, for all pool pairs (the 32-bit primes are not used here: collisions are expected there by design). Non-trivial: >=4 and/or/exists/condition operations on >=3 variables";
+    const RULE: &'static str = "SemanticSddBuilder over a random vtree (1..5 variables), with set_compression left alone / set to true / set to false, under <=30 operations from {literal, constant, not, and, or, condition, exists} plus compile_cnf (ite/iff/xor/compose are todo!() in that builder and outside the property): over GF(2^64-25) every returned SDD denotes the oracle function and eq(a,b) holds exactly when the truth tables are equal, for all pool pairs (the 32-bit primes are not used here: collisions are expected there by design). Non-trivial: >=4 and/or/exists/condition operations on >=3 variables";
     fn cases(tier: Tier) -> u32 {
-        tier.pick(2500, 80_000)
+        tier.pick(6000, 80_000)
     }
     fn strategy(_tier: Tier) -> BoxedStrategy<SemCase> {
         (
@@ -380,8 +388,15 @@ impl SubCheckT for SemBuilder {
             proptest::collection::vec(sop_strategy(false, false), 0..=30),
             (1u8..=5).prop_flat_map(|nv| clauses_strategy(nv, 6, 0, 3)).prop_map(|clauses| CnfCase { clauses }),
             prop_oneof![2 => Just(None), 5 => (1u16..=32).prop_map(Some)],
+            prop_oneof![2 => Just(None), 2 => Just(Some(true)), 1 => Just(Some(false))],
         )
-            .prop_map(|(vt, ops, cnf, table_cap)| SemCase { vt, ops, cnf, table_cap })
+            .prop_map(|(vt, ops, cnf, table_cap, compression_flag)| SemCase {
+                vt,
+                ops,
+                cnf,
+                table_cap,
+                compression_flag,
+            })
             .boxed()
     }
     fn run(case: &SemCase, st: &mut Stats) -> CaseResult {
